@@ -79,10 +79,13 @@ package state
 //@   ensures err != nil ==> unavail(err)
 
 //@ func ImmutableState.NodeStatus
-//@   trusted
+//@   props C17 C14
+//@   trustframe
 //@   modifies nothing
-//@   ensures err == nil ==> result0 != nil && fresh(result0)
+//@   ensures-trusted err == nil ==> result0 != nil && fresh(result0)
 //@   note loads and decodes the node status record (a fresh object)
+//@   precall \)\.Get$ :: keyId(argAs[[]byte](1)) == keyOf(nodeStatusKeyFmt, id)
+//@   note partially verified: the state-tree key this accessor reads or writes is checked (call-site obligation); the meaning of the stored bytes (CBOR round trip) stays assumed (ensures-trusted)
 
 //@ func ImmutableState.Nodes
 //@   trusted
